@@ -517,6 +517,17 @@ func (c *cenv) composite(n *ast.CompositeLit) Val {
 	if t == nil {
 		return c.errf("unknown composite literal type")
 	}
+	if sl, isSlice := t.Underlying().(*types.Slice); isSlice {
+		// T{a, b, ...} of a slice type: a concrete slice of the element values
+		r := Val{K: kArr, Typ: t, Sort: e.sortOfT(t)}
+		for _, el := range n.Elts {
+			if _, kv := el.(*ast.KeyValueExpr); kv {
+				return c.errf("keyed slice literals are not supported")
+			}
+			r.Elems = append(r.Elems, c.coerce(c.eval(el), sl.Elem()))
+		}
+		return r
+	}
 	st, ok := t.Underlying().(*types.Struct)
 	if !ok {
 		if len(n.Elts) == 0 {
